@@ -120,6 +120,17 @@ class C16(common.Spec):
                     r = _de(dict(data))
                     return wrap(r) if isinstance(r, dict) else r
                 return nondict
+            if style == 'inplace':
+                # "Event filters may modify the event data in-place": the edits are made to the
+                # argument itself and the filter only answers True (accept) / the falsy result
+                def inplace(data, _de=de):
+                    r = _de(dict(data))
+                    if isinstance(r, dict):
+                        data.clear()
+                        data.update(r)
+                        return True
+                    return r
+                return inplace
             return de
         raise ValueError(f)
 
@@ -338,7 +349,7 @@ def rand_op(rng):
 def rand_filter(rng):
     r = rng.random()
     if r < 0.35:
-        return ['dataedit', rng.choice(['class', 'instance', 'instance', 'chainmap', 'userdict']),
+        return ['dataedit', rng.choice(['class', 'instance', 'instance', 'chainmap', 'userdict', 'inplace']),
                 [rand_op(rng) for _ in range(rng.choice([0, 1, 1, 2, 3, 4]))]]
     if r < 0.45:
         return ['edge', [rng.random() < .5, rng.random() < .5, rng.choice([None, True, False]),
